@@ -91,7 +91,7 @@ func VerifC01SQLiteTxDiscipline() {
 	}
 }
 
-// verif:harness props=C01 tier=quick weight=30
+// verif:harness props=C01,C03,C05 tier=quick weight=30
 // verif:bounds SQLiteStore.init + migrate (what NewSQLiteStore runs on every start) with EVERY database call failing or answering arbitrarily: the journal_mode pragma answers wal / WAL / delete, the stored schema version is absent or any value 0..7 (the binary knows 6), every PRAGMA / DDL / BEGIN / COMMIT may fail
 func VerifC01SQLiteOpen() {
 	s := &SQLiteStore{db: vrt.StubDB(), nowFn: time.Now, metrics: newSQLiteRuntimeMetrics(), notify: make(chan struct{})}
@@ -113,6 +113,15 @@ func VerifC01SQLiteOpen() {
 		return n
 	}
 	b := trIndex(tr, 0, "Exec:ok:BEGIN IMMEDIATE")
+	// opening the database (a restart, or a second process such as `hookaido mcp serve`) is not a queue operation:
+	// it never rewrites or deletes message rows, so live leases survive it
+	touched := false
+	for _, e := range tr {
+		for _, p := range []string{"Exec:ok:UPDATE queue_items", "Exec:err:UPDATE queue_items", "Exec:ok:DELETE FROM queue_items", "Exec:err:DELETE FROM queue_items"} {
+			touched = touched || strings.HasPrefix(e, p)
+		}
+	}
+	vrt.Assert("C03.open.reopening-the-database-touches-no-message-row", !touched)
 	if err != nil {
 		vrt.Cover("open.refused")
 		// a store that refuses to open has changed nothing durably
